@@ -3,6 +3,7 @@
     des.enc|des.dec <xkey> <xblock>
     tdea.enc|tdea.dec <xK1> <xK2|None> <xK3|None> <xblock>
     des.rt.de|des.rt.ed <xkey> <xblock>            dec(enc(B)) / enc(dec(B))
+    des.len.enc|des.len.dec, tdea.len.enc|tdea.len.dec  length of the result (C03 length law)
     tdea.rt.de|tdea.rt.ed <xK1> <K2> <K3> <xblock>
     des.IP|IPinv|PC1|PC2|E|P <bits>   des.S n x   des.subkey <bits> r   des.F <bitsR> <bitsk> r
     des.iprt <bits>                                  IPinv(IP(x));IP(IPinv(x))
@@ -48,6 +49,18 @@ def handle : Handler := fun op args =>
   | "des.dec", [k, m] => do
       let k ← parseBytes? k; let m ← parseBytes? m
       pure (fmtE fmtBytes (Des.dec k m), fmtO (Spec.Des.dec k m))
+  | "des.len.enc", [k, m] => do
+      let k ← parseBytes? k; let m ← parseBytes? m
+      pure (fmtE (fun b => toString b.length) (Des.enc k m), if k.length = 8 ∧ m.length = 8 then "8" else "ERR")
+  | "des.len.dec", [k, m] => do
+      let k ← parseBytes? k; let m ← parseBytes? m
+      pure (fmtE (fun b => toString b.length) (Des.dec k m), if k.length = 8 ∧ m.length = 8 then "8" else "ERR")
+  | "tdea.len.enc", [k1, k2, k3, m] => do
+      let k1 ← parseBytes? k1; let k2 ← parseOptBytes? k2; let k3 ← parseOptBytes? k3; let m ← parseBytes? m
+      pure (fmtE (fun b => toString b.length) (Des.tdeaEnc k1 k2 k3 m), "-")
+  | "tdea.len.dec", [k1, k2, k3, m] => do
+      let k1 ← parseBytes? k1; let k2 ← parseOptBytes? k2; let k3 ← parseOptBytes? k3; let m ← parseBytes? m
+      pure (fmtE (fun b => toString b.length) (Des.tdeaDec k1 k2 k3 m), "-")
   | "des.rt.de", [k, m] => do
       let k ← parseBytes? k; let m ← parseBytes? m
       pure (fmtE fmtBytes (Des.enc k m >>= Des.dec k), fmtO ((Spec.Des.enc k m).bind (Spec.Des.dec k)))
